@@ -362,7 +362,7 @@ def mc_files():
     """MC modules, with the set of open deviations taken from known_findings.json."""
     out = {}
     for mod, base in (("MCInprocStream", "InprocStream"), ("MCInprocUnary", "InprocUnary"),
-                      ("MCHttpStream", "HttpStream")):
+                      ("MCHttpStream", "HttpStream"), ("MCHttpUnary", "HttpUnary")):
         if not os.path.exists(os.path.join(vlib.VERIF, "spec", base + ".tla")):
             continue
         out[mod + ".tla"] = ("---- MODULE %s ----\nEXTENDS %s\nKnownOpen == %s\n====\n"
@@ -410,26 +410,32 @@ def family_a(ctx, focus):
             jobs.append(dict(module="MCHttpStream", consts=http_stream_consts(rq, rs, *hb, closers=closers, kinds=kinds),
                              invariants=invs, name="L1-http-%s-%d%d%d" % ((bgen.kind_of(rq, rs),) + tuple(hb)),
                              view="ViewNoEv", kind=bgen.kind_of(rq, rs), tr="httpmem", model="HttpStream"))
-    ucon = {"NH": 3 if q else 4, "MaxHdr": 2, "MaxTrl": 1, "Outcomes": '{"resp", "nilresp", "err"}',
+    ucon = {"NH": 3 if q else 4, "MaxHdr": 2, "MaxTrl": 1, "Outcomes": '{"resp", "nilresp", "err", "resperr"}',
             "CancelKinds": '{"cancel"}', "FixClosed": "TRUE", "FixDecode": "TRUE", "Known <-": "KnownOpen"}
     jobs.append(dict(module="MCInprocUnary", consts=ucon, name="L1-inproc-unary", model="InprocUnary", view="ViewNoEv",
                      invariants=["TypeOK", "Refines", "C05_NoStuck", "C06_NoReadAfterReturn"]))
+    jobs.append(dict(module="MCHttpUnary", model="HttpUnary", name="L1-http-unary", view="ViewNoEv",
+                     consts={"NH": 3 if q else 4, "MaxHdr": 2, "MaxTrl": 1, "Outcomes": '{"resp", "nilresp", "err", "resperr"}',
+                             "CancelKinds": '{"cancel", "deadline"}', "Known <-": "KnownOpen"},
+                     invariants=["TypeOK", "Refines", "C05_NoStuck"]))
     if q:
         results = ctx.tlc_many(jobs, timeout=600)
     else:
         results = [ctx.tlc(j["module"], j["consts"], invariants=j["invariants"], name=j["name"], timeout=1500,
                            view=j.get("view")) for j in jobs]
     for j, r in zip(jobs, results):
-        if j["model"] == "InprocUnary":
+        if j["model"] in ("InprocUnary", "HttpUnary"):
             if r["violated"]:
                 acts = bgen.parse_actions(r["stdout"])
-                v = run_scripts(ctx, [bgen.unary_script(acts, "cex-unary-%d" % i, seed + i) for i in range(60)],
-                                "cex-unary", shards=1)
+                http = j["model"] == "HttpUnary"
+                v = run_scripts(ctx, [bgen.unary_script(acts, "cex-unary-%d" % i, seed + i, tr="httpmem" if http else "inproc",
+                                                        gated=not http) for i in range(60)],
+                                "cex-unary" + ("-http" if http else ""), shards=1)
                 if not v:
-                    raise vlib.Infra("TLC counterexample on InprocUnary is not reproducible on the real code: "
-                                     "the model is wrong\n" + r["stdout"][-1500:])
+                    raise vlib.Infra("TLC counterexample on %s is not reproducible on the real code: "
+                                     "the model is wrong\n%s" % (j["model"], r["stdout"][-1500:]))
             elif not r["ok"]:
-                raise vlib.Infra("TLC failed on InprocUnary:\n" + r["stdout"][-3000:])
+                raise vlib.Infra("TLC failed on %s:\n%s" % (j["model"], r["stdout"][-3000:]))
         elif r["violated"]:
             handle_model_counterexample(ctx, r, j["kind"], tr=j["tr"], model=j["model"])
         elif not r["ok"] and not r["timed_out"]:
@@ -443,6 +449,10 @@ def family_a(ctx, focus):
         for rep in range(3 if q else 8):
             scripts.append(bgen.unary_script(b, "sim-unary-%d-%d" % (j, rep), seed * 100003 + j))
         scripts.append(bgen.unary_script(b, "sim-unary-httpmem-%d" % j, seed * 100003 + j, tr="httpmem", gated=False))
+    hucon = {"NH": 4, "MaxHdr": 2, "MaxTrl": 1, "Outcomes": '{"resp", "nilresp", "err", "resperr"}',
+             "CancelKinds": '{"cancel", "deadline"}', "Known <-": "KnownOpen"}
+    for j, b in enumerate(bgen.simulate(ctx.scratch, "MCHttpUnary", hucon, nun // 2, 40, seed * 11 + 5, "hu", files=mc_files())):
+        scripts.append(bgen.unary_script(b, "sim-http-unary-%d" % j, seed * 100003 + j, tr="httpmem", gated=False))
     ctx.rules.append("behaviours of the L1 model InprocUnary replayed through the verifPoint gates of Invoke "
                      "(each repeated, since Go's select picks among ready cases at random)")
     nsim = focus.get("nsim_q" if q else "nsim_t", 150 if q else 2500)
@@ -554,8 +564,13 @@ def http_conf_consts(flags):
 
 
 def unary_conf_consts(flags):
-    return {"NH": 60, "MaxHdr": 20, "MaxTrl": 20, "Outcomes": '{"resp", "nilresp", "err"}',
+    return {"NH": 60, "MaxHdr": 20, "MaxTrl": 20, "Outcomes": '{"resp", "nilresp", "err", "resperr"}',
             "CancelKinds": '{"cancel", "deadline"}', "FixClosed": "TRUE", "FixDecode": "TRUE", "Known": "{}"}
+
+
+def http_unary_conf_consts(flags):
+    return {"NH": 60, "MaxHdr": 20, "MaxTrl": 20, "Outcomes": '{"resp", "nilresp", "err", "resperr"}',
+            "CancelKinds": '{"cancel", "deadline"}', "Known": "{}"}
 
 
 CONF_KINDS = {"bidi": (True, True), "cstream": (True, False), "sstream": (False, True)}
@@ -576,9 +591,11 @@ def conformance(ctx, name):
     specs = (("TraceInprocStream", "InprocStream", ("inproc",), conf_consts, "l1_conformance", CONF_KINDS),
              ("TraceHttpStream", "HttpStream", ("http",), http_conf_consts, "l1_http_conformance", CONF_KINDS),
              ("TraceInprocUnary", "InprocUnary", ("inproc",), unary_conf_consts, "l1_unary_conformance",
+              {"unary": (False, False)}),
+             ("TraceHttpUnary", "HttpUnary", ("http",), http_unary_conf_consts, "l1_http_unary_conformance",
               {"unary": (False, False)}))
     tasks = []
-    with cf.ThreadPoolExecutor(max_workers=6) as ex:
+    with cf.ThreadPoolExecutor(max_workers=8) as ex:
         for module, model, trs, consts, key, kinds in specs:
             tag = "%s-%s-%s" % (name, model, trs[0])
             tasks.append((model, key, False, ex.submit(
@@ -608,7 +625,7 @@ def conformance(ctx, name):
                               rejected_runs=[dict(run=x, stuck_at=r["stuck"].get(x)) for x in r["rejected"][:20]])
         for run in r["rejected"][:5]:
             print("MODEL-DRIFT: run %s is not a behaviour of %s (stuck at %s)" %
-                  (run, model, json.dumps(r["stuck"].get(run))[:300]))
+                  (run, model, json.dumps((r["stuck"].get(run) or {}).get("line"))[:300]))
             ctx.drift.append("run %s not explained by %s" % (run, model))
 
 
@@ -668,6 +685,25 @@ def check_C04(ctx):
 
 def check_C05(ctx):
     family_a(ctx, {"extra": [("early", 90), ("stall", 45), ("card", 90)]})
+    if not ctx.quick:
+        # the liveness form of C05 (temporal property under weak fairness of the
+        # library's internal steps; no VIEW, no state constraint): once the
+        # context is done -- or the handler has finished (and, over HTTP, the
+        # client has closed its send side) -- every client operation returns
+        for (rq, rs) in STREAM_KINDS:
+            kind = bgen.kind_of(rq, rs)
+            for module, consts in (
+                    ("MCInprocStream", inproc_stream_consts(rq, rs, 1, 1, 2, hdr=1, closers='{"cs"}')),
+                    ("MCHttpStream", http_stream_consts(rq, rs, 1, 1, 2, closers='{"cs"}', kinds='{"cancel"}'))):
+                r = ctx.tlc(module, consts, properties=["C05_Live"], spec="FairSpec", name="live-%s-%s" % (module[2:], kind),
+                            timeout=2400)
+                if r["timed_out"]:
+                    ctx.drift.append("liveness run %s/%s timed out" % (module, kind))
+                elif not r["ok"]:
+                    # a liveness counterexample of the model is a lead, never a verdict
+                    raise vlib.Infra("C05_Live does not hold on %s (%s): inspect the model\n%s"
+                                     % (module, kind, r["stdout"][-3000:]))
+        ctx.rules.append("TLC, temporal: C05_Live under FairSpec on InprocStream and HttpStream (1,1,2), all three stream kinds")
 
 
 def check_C08(ctx):
@@ -767,6 +803,9 @@ def check_C09(ctx):
     extra = []
     for i in range(150 if ctx.quick else 3000):
         extra.append({"fam": "prop", "mant": rnd.randint(1, 9999), "exp": rnd.randint(2, 10), "kind": rnd.choice(["unary", "stream"])})
+    for i in range(60 if ctx.quick else 1200):
+        # long deadlines with a fraction of a second (beyond 8 digits of milliseconds)
+        extra.append({"fam": "prop", "mant": rnd.randint(10 ** 8, 2 * 10 ** 9), "exp": 3, "kind": rnd.choice(["unary", "stream"])})
     for i in range(100 if ctx.quick else 2000):
         v = rnd.choice([rnd.randint(0, 99), rnd.randint(0, 99999999)])
         extra.append({"fam": "parse", "sign": "", "val": v, "digits": 0, "big": "no", "unit": rnd.choice("HMSmun"),
